@@ -39,8 +39,8 @@ from radicale.app import Application
 
 radicale.log.logger.setLevel(logging.CRITICAL)
 
-DEADLINE = 30.0       # generous: only reached when something is really stuck
-FAILED_SCRIPTS = 0    # per driver process: after 3 failing scripts the rest is skipped (enough replays, bounded time)
+DEADLINE = 20.0       # generous: only reached when something is really stuck
+FAILED_SCRIPTS = 0    # per driver process: after 2 failing scripts the rest is skipped (enough replays, bounded time)
 QUIET = 0.25          # quiet period for "does not happen" observations
 MAXQ = 4              # queued (not accepted) connections per listener: below socketserver's listen(5)
 
@@ -421,9 +421,12 @@ class Run:
                     cl.sock.close()
             except OSError:
                 pass
-        self.serve_thread.join(10)
+        self.serve_thread.join(1 if self.fail else 10)
         CURRENT = None
         shutil.rmtree(self.folder, ignore_errors=True)
+
+    def pump(self, cl, wait=DEADLINE):
+        return cl.pump(min(wait, 2.0) if self.fail else wait)
 
     # ---- model log
     def emit(self, ev, args, obs):
@@ -512,7 +515,7 @@ class Run:
         if cl.closed:
             self.emit("TRead", [cl.c], [["OEofSeen", cl.c]])
             return
-        cl.pump(DEADLINE)
+        self.pump(cl)
         st, complete = parse_response(cl.data)
         if cl.entered:
             # the worker socket was closed although the handler has not been released
@@ -533,7 +536,7 @@ class Run:
             self.fail.append(dict(what="released handler never finishes its connection", conn=c))
             raise Inconclusive("stuck")
         cl.done = True
-        cl.pump(DEADLINE)
+        self.pump(cl)
         st, complete = parse_response(cl.data)
         self.stats["handled"] += 1
         self.emit("ERelease", [c], [["OHandlerDone", c]])
@@ -554,7 +557,7 @@ class Run:
         if T <= 0:
             self.fail.append(dict(what="silent connection dropped although no timeout is configured", conn=cl.c))
             return
-        cl.pump(DEADLINE)
+        self.pump(cl)
         if cl.data:
             self.fail.append(dict(what="silent connection got data", conn=cl.c, data=cl.data[:100].decode("latin-1")))
         if cl.t_eof is not None and cl.t_accept is not None and cl.t_eof < cl.t_accept + T - 0.02:
@@ -564,7 +567,7 @@ class Run:
     def op_wait_timeouts(self):
         T = float(self.cfg["timeout"])
         for cl in sorted(self.silent(), key=lambda x: x.acc_seq):
-            if not self.wait_for(lambda: self.worker_ready(cl), deadline=T + 20.0):
+            if not self.wait_for(lambda: self.worker_ready(cl), deadline=T + 15.0):
                 self.fail.append(dict(what="silent connection is never dropped (timeout %.2fs)" % T, conn=cl.c))
                 raise Inconclusive("stuck")
             self.timeout_seen(cl)
@@ -863,7 +866,7 @@ class Run:
 
 def run_script(job):
     global FAILED_SCRIPTS
-    if FAILED_SCRIPTS >= 3:
+    if FAILED_SCRIPTS >= 2:
         return dict(skipped=True, seed=job["seed"], cfg=job["cfg"])
     if not job.get("lockstep", True):
         return run_free(job)
@@ -960,8 +963,9 @@ def run_free(job):
         if stop_at is not None:
             time.sleep(stop_at)
         else:
+            t_end = time.monotonic() + DEADLINE + T + 2
             for t in threads:
-                t.join(DEADLINE + T + 5)
+                t.join(max(0.0, t_end - time.monotonic()))
             if any(t.is_alive() for t in threads):
                 run.fail.append(dict(what="free-running: clients are not all served although no shutdown was requested",
                                      unserved=[p["c"] for p, t in zip(plans, threads) if t.is_alive()]))
@@ -969,8 +973,9 @@ def run_free(job):
         run.shutdown_in.close()
         if not run.wait_for(lambda: run.t_return is not None, deadline=DEADLINE + T):
             run.fail.append(dict(what="free-running: serve() does not return after shutdown"))
+        t_end = time.monotonic() + (1 if run.fail else 5)
         for t in threads:
-            t.join(5)
+            t.join(max(0.0, t_end - time.monotonic()))
         # ---- monitors
         k_stop = None
         for rec in run.sel_calls:
